@@ -20,7 +20,6 @@ use super::built_in_predicates::*;
 use super::substitution_set::*;
 
 static NOT_A_NODE_ERR: &str = "unify(): Not an SLinkedList node.";
-static UNKNOWN_UNIFIABLE_ERR: &str = "unifiable.rs - Unknown unifiable.";
 static VAR_ID_0_ERR: &str =
        "unify(): Logic variable has an ID of 0. See: recreate_variables().";
 
@@ -546,7 +545,16 @@ impl Unifiable {
                                        count: *c,
                                        tail_var: *tf}
             },
-            _ => { panic!("{}", UNKNOWN_UNIFIABLE_ERR); }
+            Unifiable::SFunction{name, terms} => {
+                // A function which was not evaluated: replace
+                // the variables of its arguments. (add($X, 1))
+                let mut new_terms: Vec<Unifiable> = vec![];
+                for term in terms {
+                    let new_term = term.replace_variables(ss);
+                    new_terms.push(new_term);
+                }
+                Unifiable::SFunction{name: name.to_string(), terms: new_terms}
+            },
         }
 
     } // replace_variables()
